@@ -28,6 +28,20 @@
 //   run                               -> "ok extra=<engine cycles at times not listed>" | "err:<class>"
 //                                         the last `c` line is the last cycle that can run (end_time = its time + MIN_TD,
 //                                         exclusive): a write in it has no delivery cycle
+//
+// REF-selected producer (C08 x C13):
+//   shape <s> sel|swc                 -> "ok"      s in tss tsd (sel, swc) tsb2 tsl2 (sel); the feedback's producer port is
+//                                         sel : stdlib::if_then_else(cond, A, B)                    (publishes a REF<S>)
+//                                         swc : stdlib::switch_(key, {1: pass-A, 0: pass-B}, A, B)  (branch graphs forward an argument)
+//                                         over two INDEPENDENTLY scripted writers A and B of shape S and a scripted TS<Bool> cond
+//   c [s=a|s=b] [a=<writes>] [b=<writes>] | c -     (at least one part, in this order)
+//                                     -> "t=<time> cyc=<0|1> w=<delta|-> r=<delta|-> v=<value|invalid|-> pv=<value|invalid|->"
+//                                         s=a / s=b : cond ticks with true (select A) / false (select B) - also with the value it has
+//                                         w / pv    : what the recorder on the PRODUCER PORT sees when the port ticked: the tick through
+//                                                     added()/removed() (TSS), modified_items()/removed_keys() (TSD), modified() per
+//                                                     child (TSB/TSL) - never delta_value() - and the port's full value;
+//                                                     a tick of the port while it is NOT valid is not logged (not a write)
+//
 // writes : comma separated   p=v  (position p: TS 0; TSB field index, nested TSBs flattened; TSL element index; TSD key)
 //                            +e / -e (TSS add / remove element e)        -k (TSD erase key k)
 //                            tsbs: 0=v (field a), +e / -e (field s); an initial delta may carry -e / -k too
@@ -68,7 +82,10 @@ namespace
     struct W { char op; std::int64_t p; std::int64_t v; };   // op: '=' set, '+' add, '-' remove
     using Writes = std::vector<W>;
 
-    std::vector<std::optional<Writes>> g_script;   // per cycle
+    std::vector<std::optional<Writes>> g_scripts[3];            // per cycle: [0] the producer, [1] / [2] targets A / B of the selection
+    std::vector<std::optional<Writes>> &g_script = g_scripts[0];
+    std::vector<std::optional<bool>>   g_cond;                  // per cycle: the selection's condition ticks with this value
+    char                               g_sel = 0;               // 0 direct producer; 'i' if_then_else; 's' switch_
     std::optional<Writes>              g_init;          // declared initial delta (an empty list = the canonical empty delta)
     bool                               g_loop  = false; // self loop through a validity-gated body instead of the line
     std::int64_t                       g_probe = -1;    // time at which the reader recorder is evaluated without a tick
@@ -337,6 +354,69 @@ namespace
         }
     };
 
+    // target W (1 = A, 2 = B) of the selection: same as Writer, own script
+    template <typename S, int W>
+    struct TargetWriter
+    {
+        static constexpr auto name = W == 1 ? "fbshape_target_a" : "fbshape_target_b";
+        static std::size_t next(std::size_t from)
+        {
+            while (from < g_scripts[W].size() && !g_scripts[W][from].has_value()) { ++from; }
+            return from;
+        }
+        static void start(NodeScheduler sched)
+        {
+            const std::size_t i = next(0);
+            if (i < g_scripts[W].size()) { sched.schedule(dt(k_start + static_cast<std::int64_t>(i))); }
+        }
+        static void eval(NodeScheduler sched, Out<S> out)
+        {
+            const std::int64_t now = us(sched.now());
+            const auto         i   = static_cast<std::size_t>(now - k_start);
+            if (i < g_scripts[W].size() && g_scripts[W][i].has_value()) { Shape<S>::write(out, *g_scripts[W][i]); }
+            const std::size_t j = next(i + 1);
+            if (j < g_scripts[W].size()) { sched.schedule(dt(k_start + static_cast<std::int64_t>(j))); }
+        }
+    };
+
+    std::size_t next_cond(std::size_t from)
+    {
+        while (from < g_cond.size() && !g_cond[from].has_value()) { ++from; }
+        return from;
+    }
+
+    // the selection's condition: TS<Bool> (if_then_else) / TS<Int> 1|0 (switch_ key)
+    template <typename T>
+    struct CondWriter
+    {
+        static constexpr auto name = "fbshape_cond";
+        static void start(NodeScheduler sched)
+        {
+            const std::size_t i = next_cond(0);
+            if (i < g_cond.size()) { sched.schedule(dt(k_start + static_cast<std::int64_t>(i))); }
+        }
+        static void eval(NodeScheduler sched, Out<TS<T>> out)
+        {
+            const std::int64_t now = us(sched.now());
+            const auto         i   = static_cast<std::size_t>(now - k_start);
+            if (i < g_cond.size() && g_cond[i].has_value()) { out.set(T{*g_cond[i] ? 1 : 0}); }
+            const std::size_t j = next_cond(i + 1);
+            if (j < g_cond.size()) { sched.schedule(dt(k_start + static_cast<std::int64_t>(j))); }
+        }
+    };
+
+    // switch_ branches: forward one of the two arguments (the branch's output IS the argument)
+    template <typename S> struct PassA
+    {
+        static constexpr auto name = "fbshape_pass_a";
+        static auto compose(Wiring &, Port<S> a, Port<S>) { return a; }
+    };
+    template <typename S> struct PassB
+    {
+        static constexpr auto name = "fbshape_pass_b";
+        static auto compose(Wiring &, Port<S>, Port<S> b) { return b; }
+    };
+
     template <typename S>
     struct Recorder
     {
@@ -349,6 +429,9 @@ namespace
         {
             const bool ticked = x.modified();
             if (!ticked && !(who.value() && us(now) == g_probe)) { return; }   // only the reader recorder is probed
+            // REF-selected producer port: a re-bind onto a target that is not valid marks the port modified without a
+            // value; the feedback sink (valid_inputs = {ts}) is not evaluated then - not a write
+            if (g_sel != 0 && who.value() == 0 && !x.valid()) { return; }
             Toks d, v;
             if (ticked || x.valid()) { Shape<S>::describe(x, d, v); }
             g_rec[who.value() ? 1 : 0][us(now)] =
@@ -424,6 +507,39 @@ namespace
         Obs          obs;
         GraphExecutorBuilder eb;
         const std::int64_t   end = k_start + static_cast<std::int64_t>(g_script.size());
+        eb.graph_builder(std::move(gb)).mode(GraphExecutorMode::Simulation).start_time(dt(k_start)).end_time(dt(end));
+        eb.add_lifecycle_observer(&obs);
+        GraphExecutorValue executor = eb.make_executor();
+        executor.view().run();
+    }
+
+    // the feedback's producer port is a REF selection between two independently written collections
+    template <typename S>
+    void run_sel()
+    {
+        Wiring w{WiringKind::TopLevel, WiringOptions{}};
+        auto   fb = stdlib::feedback<S>(w);
+        auto   a  = wire<TargetWriter<S, 1>>(w).template as<S>();
+        auto   b  = wire<TargetWriter<S, 2>>(w).template as<S>();
+        Port<S> prod = [&] {
+            if (g_sel == 'i')
+            {
+                auto c = wire<CondWriter<Bool>>(w).template as<TS<Bool>>();
+                return wire<stdlib::if_then_else>(w, c, a, b).template as<S>();
+            }
+            auto                key = wire<CondWriter<Int>>(w).template as<TS<Int>>();
+            stdlib::SwitchCases cases;
+            cases.cases.push_back(stdlib::SwitchCase{.key = Value{Int{1}}, .branch = fn<PassA<S>>()});
+            cases.cases.push_back(stdlib::SwitchCase{.key = Value{Int{0}}, .branch = fn<PassB<S>>()});
+            return wire<stdlib::switch_>(w, key, std::move(cases), a, b).template as<S>();
+        }();
+        fb(prod);
+        wire<Recorder<S>>(w, Int{0}, prod);
+        wire<Recorder<S>>(w, Int{1}, fb());
+        GraphBuilder gb = std::move(w).finish();
+        Obs          obs;
+        GraphExecutorBuilder eb;
+        const std::int64_t   end = k_start + static_cast<std::int64_t>(g_cond.size());
         eb.graph_builder(std::move(gb)).mode(GraphExecutorMode::Simulation).start_time(dt(k_start)).end_time(dt(end));
         eb.add_lifecycle_observer(&obs);
         GraphExecutorValue executor = eb.make_executor();
@@ -507,7 +623,9 @@ int main()
         cyc_slot.clear();
     };
     auto reset = [&] {
-        g_script.clear();
+        for (auto &sc : g_scripts) { sc.clear(); }
+        g_cond.clear();
+        g_sel = 0;
         g_init.reset();
         g_loop  = false;
         g_probe = -1;
@@ -532,9 +650,24 @@ int main()
             static const std::set<std::string> shapes{"ts", "tsb2", "tsb3", "tsbn", "tsl2", "tss", "tsd", "tsbs"};
             if (!shapes.count(ws[1])) { pending.push_back("bad-op"); continue; }
             g_shape = ws[1];
-            // options in this order: [init <writes>|{}] [loop] [probe <t>]
+            // options in this order: [init <writes>|{}] [loop] [probe <t>]    |    sel|swc alone
             std::size_t i  = 2;
             bool        ok = true;
+            if (ws.size() == 3 && (ws[2] == "sel" || ws[2] == "swc"))
+            {
+                // switch_ forwards a reference only for the keyed shapes (a TSB / TSL output of a new branch starts not valid)
+                if (g_shape == "tss" || g_shape == "tsd" || (ws[2] == "sel" && (g_shape == "tsb2" || g_shape == "tsl2")))
+                {
+                    g_sel = ws[2] == "sel" ? 'i' : 's';
+                    pending.push_back("ok");
+                }
+                else
+                {
+                    g_shape.clear();
+                    pending.push_back("bad-op");
+                }
+                continue;
+            }
             if (i + 1 < ws.size() && ws[i] == "init")
             {
                 Writes in;
@@ -571,7 +704,44 @@ int main()
             }
             pending.push_back("ok");
         }
-        else if (ws[0] == "c" && ws.size() == 2 && !g_shape.empty())
+        else if (ws[0] == "c" && g_sel != 0 && ws.size() >= 2 && ws.size() <= 4 && !g_shape.empty())
+        {
+            // c [s=a|s=b] [a=<writes>] [b=<writes>] | c -
+            std::optional<bool>   cond;
+            std::optional<Writes> wa, wb;
+            bool                  ok = true;
+            if (!(ws.size() == 2 && ws[1] == "-"))
+            {
+                int stage = 0;   // parts in the order s, a, b
+                for (std::size_t i = 1; ok && i < ws.size(); ++i)
+                {
+                    const std::string &t = ws[i];
+                    if (t == "s=a" || t == "s=b")
+                    {
+                        ok    = stage < 1;
+                        stage = 1;
+                        cond  = t == "s=a";
+                    }
+                    else if (t.size() > 2 && (t[0] == 'a' || t[0] == 'b') && t[1] == '=')
+                    {
+                        const int st = t[0] == 'a' ? 2 : 3;
+                        ok           = stage < st;
+                        stage        = st;
+                        Writes in;
+                        ok = ok && parse_writes(t.substr(2), in) && shape_ok(in, false);
+                        if (ok) { (t[0] == 'a' ? wa : wb) = in; }
+                    }
+                    else { ok = false; }
+                }
+            }
+            if (!ok) { pending.push_back("bad-op"); continue; }
+            g_cond.push_back(cond);
+            g_scripts[1].push_back(wa);
+            g_scripts[2].push_back(wb);
+            cyc_slot.push_back(static_cast<int>(pending.size()));
+            pending.push_back("?");
+        }
+        else if (ws[0] == "c" && g_sel == 0 && ws.size() == 2 && !g_shape.empty())
         {
             if (ws[1] == "-") { g_script.emplace_back(std::nullopt); }
             else
@@ -586,12 +756,17 @@ int main()
             cyc_slot.push_back(static_cast<int>(pending.size()));
             pending.push_back("?");
         }
-        else if (ws[0] == "run" && ws.size() == 1 && !g_shape.empty() && !g_script.empty())
+        else if (ws[0] == "run" && ws.size() == 1 && !g_shape.empty() && !(g_sel ? g_cond.empty() : g_script.empty()))
         {
-            std::string result;
+            std::string       result;
+            const std::size_t ncyc = g_sel ? g_cond.size() : g_script.size();
             try
             {
-                if (g_loop && g_shape == "ts") { run_loop<S_ts>(); }
+                if (g_sel && g_shape == "tss") { run_sel<S_tss>(); }
+                else if (g_sel && g_shape == "tsd") { run_sel<S_tsd>(); }
+                else if (g_sel && g_shape == "tsb2") { run_sel<S_tsb2>(); }
+                else if (g_sel) { run_sel<S_tsl2>(); }
+                else if (g_loop && g_shape == "ts") { run_loop<S_ts>(); }
                 else if (g_loop && g_shape == "tss") { run_loop<S_tss>(); }
                 else if (g_loop) { run_loop<S_tsd>(); }
                 else if (g_shape == "ts") { run_shape<S_ts>(); }
@@ -605,7 +780,7 @@ int main()
                 std::size_t extra = 0;
                 for (auto t : g_cycles)
                 {
-                    if (t < k_start || t >= k_start + static_cast<std::int64_t>(g_script.size())) { ++extra; }
+                    if (t < k_start || t >= k_start + static_cast<std::int64_t>(ncyc)) { ++extra; }
                 }
                 result = "ok extra=" + std::to_string(extra);
             }
@@ -619,7 +794,8 @@ int main()
                     "t=" + std::to_string(t) + " cyc=" + (g_cycles.count(t) ? "1" : "0") +
                     " w=" + (wi == g_rec[0].end() ? std::string("-") : wi->second.delta) +
                     " r=" + (ri == g_rec[1].end() ? std::string("-") : ri->second.delta) +
-                    " v=" + (ri == g_rec[1].end() ? std::string("-") : ri->second.value);
+                    " v=" + (ri == g_rec[1].end() ? std::string("-") : ri->second.value) +
+                    (g_sel ? " pv=" + (wi == g_rec[0].end() ? std::string("-") : wi->second.value) : std::string());
             }
             pending.push_back(result);
             flush();
